@@ -418,7 +418,11 @@ func DecodeDDSketch(b []byte, storeProvider store.Provider, indexMapping mapping
 func (s *DDSketch) DecodeAndMergeWith(bb []byte) error {
 	return s.decodeAndMergeWith(bb, func(b *[]byte, flag enc.Flag) error {
 		switch flag {
-		case enc.FlagCount, enc.FlagSum, enc.FlagMin, enc.FlagMax:
+		case enc.FlagCount:
+			// Exact summary stats are ignored. The count is encoded as a varfloat64.
+			_, err := enc.DecodeVarfloat64(b)
+			return err
+		case enc.FlagSum, enc.FlagMin, enc.FlagMax:
 			// Exact summary stats are ignored.
 			if len(*b) < 8 {
 				return io.EOF
